@@ -503,7 +503,7 @@ path: the theorem applies and yields the invocation -/
 
 def collFind : ResSpec := ⟨collSegs, some "Inner", ⟨.finder, sB "byName", false, none, some (.ref "Inner"), none, false⟩⟩
 def collNode : Routing.Node := (nodeFor roots collSegs).getD (.mk "" false [] [] [] [])
-theorem collNode_is : nodeFor roots collSegs = some collNode := by
+def collNode_is : nodeFor roots collSegs = some collNode := by
   have h : (nodeFor roots collSegs).isSome = true := by decide +kernel
   unfold collNode
   cases hn : nodeFor roots collSegs with
